@@ -84,7 +84,12 @@ def equal(a, b):
         return a.replace(tzinfo=None) == b.replace(tzinfo=None) and a.fold == b.fold and \
             (a.tzinfo is None) == (b.tzinfo is None) and a.utcoffset() == b.utcoffset()
     if isinstance(a, DT.tzinfo):
-        return a == b or (a.utcoffset(None) == b.utcoffset(None) and a.tzname(None) == b.tzname(None))
+        if a == b:
+            return True
+        # (a pytz zone object that is not the canonical instance of its zone compares by identity only: same zone
+        # name, same offset and tzname then)
+        return getattr(a, 'zone', None) == getattr(b, 'zone', None) and a.utcoffset(None) == b.utcoffset(None) \
+            and a.tzname(None) == b.tzname(None)
     if isinstance(a, enum.Enum):
         return a is b
     if isinstance(a, (list, tuple)) and not hasattr(a, '_fields'):
@@ -102,6 +107,15 @@ def instances(rng, q):
            DT.timezone(DT.timedelta(seconds=1)), pytz.utc, pytz.timezone('Europe/Helsinki'), pytz.timezone('US/Eastern')]
     out = []
     for tz in tzs[1:]:
+        out.append(('tzinfo', tz))
+    # zones that share offset and tzname with another zone but are not that zone; named fixed offsets of zero
+    for z in ('Etc/UTC', 'UCT', 'Zulu', 'Etc/Universal', 'GMT', 'Etc/GMT', 'Etc/GMT+5', 'Etc/GMT-14', 'Europe/London',
+              'Asia/Kolkata', 'Australia/Lord_Howe'):
+        out.append(('tzinfo', pytz.timezone(z)))
+        out.append(('datetime', DT.datetime(2020, 6, 1, 12, 0, tzinfo=pytz.timezone(z)) if z.startswith(('Etc', 'UCT', 'Zulu', 'GMT'))
+                    else pytz.timezone(z).localize(DT.datetime(2020, 6, 1, 12, 0))))
+    for tz in (DT.timezone(DT.timedelta(0), 'GMT'), DT.timezone(DT.timedelta(0), 'UTC'), DT.timezone(DT.timedelta(0), 'Z'),
+               pytz.FixedOffset(0), pytz.FixedOffset(90), pytz.FixedOffset(-330)):
         out.append(('tzinfo', tz))
     for tz in tzs:
         for fold in (0, 1):
